@@ -8,7 +8,6 @@ import (
 	"strconv"
 	"strings"
 	"sync"
-	"sync/atomic"
 	"time"
 
 	"github.com/enbility/ship-go/model"
@@ -87,9 +86,29 @@ type ship1 struct {
 	delivered  []string
 	devClasses map[string]int
 	coopN      int
-	// epoch counts the entries into the unit under test (a delivery, a user operation, a
-	// timer expiry): what happens within one epoch is one reaction of the state machine
-	epoch atomic.Int64
+	// epochs counts, per task, the entries into the unit under test (a delivery, a user
+	// operation, a timer expiry): what one task does within one epoch is one reaction of
+	// the state machine
+	epochMu sync.Mutex
+	epochs  map[string]int64
+}
+
+// bumpEpoch starts a new reaction of the state machine in the calling task.
+func (s *ship1) bumpEpoch() {
+	s.epochMu.Lock()
+	if s.epochs == nil {
+		s.epochs = map[string]int64{}
+	}
+	s.epochs[simrt.CurrentLabel()]++
+	s.epochMu.Unlock()
+}
+
+// epochOf returns the calling task and the number of its current reaction.
+func (s *ship1) epochOf() (string, int64) {
+	t := simrt.CurrentLabel()
+	s.epochMu.Lock()
+	defer s.epochMu.Unlock()
+	return t, s.epochs[t]
 }
 
 func (s *ship1) enqueue(f ...string) {
@@ -191,7 +210,7 @@ func (s *ship1) deliver(f string, class string) {
 	if s.o.lateFrames == 0 && s.tw.isClosed() {
 		return
 	}
-	s.epoch.Add(1)
+	s.bumpEpoch()
 	s.x.Ev("rx", class, "", int(st))
 	s.x.SigAdd(fmt.Sprintf("rx:%d:%s", st, class))
 	s.conn.HandleIncomingWebsocketMessage([]byte(f))
@@ -296,12 +315,12 @@ func newShip1(x *Ctx, o ship1Opts) *ship1 {
 			switch s.userPlan {
 			case "approve":
 				s.prov.set(func() { s.prov.paired = true })
-				s.epoch.Add(1)
+				s.bumpEpoch()
 				x.Ev("user-approve", "", "", int(st))
 				s.conn.ApprovePendingHandshake()
 				x.Ev("user-approve-ret", "", "", 0)
 			case "cancel":
-				s.epoch.Add(1)
+				s.bumpEpoch()
 				x.Ev("user-cancel", "", "", int(st))
 				s.conn.AbortPendingHandshake()
 				x.Ev("user-cancel-ret", "", "", 0)
